@@ -120,7 +120,9 @@ fn build(mask: u32, fns: &[&FnSpec]) -> dr::Module {
     m.debug_names = g.list(n(7));
     if mask & (1 << 11) != 0 {
         let mut h = dr::ModuleHeader::new(999);
-        h.set_version(1, 3);
+        // version: one of 1.0 .. 1.6, 0.0, 255.255 (chosen by the section mask, so that every version meets every section)
+        let (maj, min) = [(1u8, 0u8), (1, 1), (1, 3), (1, 4), (1, 6), (0, 0), (255, 255)][(mask % 7) as usize];
+        h.set_version(maj, min);
         // every header word arbitrary
         h.magic_number = 0x1111_1111;
         h.generator = 0x2222_0003;
@@ -206,6 +208,42 @@ fn big_modules() -> Vec<(String, Box<dyn Fn() -> dr::Module + Sync + Send>)> {
         f.blocks.push(b);
         m.functions.push(f);
         m.types_global_values = seq(ops.len());
+        m
+    })));
+    // every shape of every opcode (every enumerant, optional operand, parameter) as an instruction of each of three
+    // blocks of one function, of a second function's only block, and of types_global_values
+    out.push(("big: every operand shape of every opcode in each of three blocks and in a global section".to_string(), Box::new(|| {
+        let shapes: Vec<dr::Instruction> = crate::universe::all_shapes(Tier::Quick).iter().filter_map(|s| crate::model::to_dr(&s.inst)).collect();
+        let id = std::cell::Cell::new(0u32);
+        let next = || {
+            id.set(id.get() + 1);
+            id.get()
+        };
+        let seq = || -> Vec<dr::Instruction> {
+            shapes
+                .iter()
+                .map(|i| {
+                    let mut j = i.clone();
+                    j.result_id = Some(next());
+                    j
+                })
+                .collect()
+        };
+        let mut m = dr::Module::new();
+        let mut f = dr::Function::new();
+        for _ in 0..3 {
+            let mut b = dr::Block::new();
+            b.label = Some(dr::Instruction::new(spirv::Op::Label, None, Some(next()), vec![]));
+            b.instructions = seq();
+            f.blocks.push(b);
+        }
+        m.functions.push(f);
+        let mut f2 = dr::Function::new();
+        let mut b = dr::Block::new();
+        b.instructions = seq();
+        f2.blocks.push(b);
+        m.functions.push(f2);
+        m.types_global_values = seq();
         m
     })));
     for n in [255usize, 256, 257, 65535, 65536, 65537] {
